@@ -546,6 +546,25 @@ def c30(tier, seed):
             steps.append({"do": "offered_deadline_status", "w": 0})
         steps.append({"do": "final"})
         out.append({"name": f"C30-{k}", "family": "timing", "seed": seed * 59 + k, "frag": 1344, "steps": steps})
+    # writes that are refused (KEEP_ALL with exhausted resource limits) or blocked do not publish a sample, so they must not
+    # postpone the offered deadline; rejected / time-filtered receptions must not postpone the requested deadline
+    nr = 10 if tier == "quick" else 100
+    for k in range(nr):
+        D = rng.choice([100, 300])
+        limit = rng.choice([{"max_samples_per_instance": 1}, {"max_samples": 1}, {"max_samples_per_instance": 2}])
+        wstep = {"do": "create_writer", "part": 0, "qos": q(hist=0, deadline_ms=D, **limit)}
+        rstep = {"do": "create_reader", "part": 1, "qos": q(hist=0, deadline_ms=D)}
+        if k % 2 == 0:
+            wstep["listener"] = ["OfferedDeadlineMissed"]
+        steps = [{"do": "participant"}, {"do": "participant"}, wstep, rstep, {"do": "wait_match", "w": 0, "n": 1}]
+        for j in range(rng.randint(4, 7)):
+            steps.append({"do": "write", "w": 0, "i": 1, "len": 8})      # the first one or two are stored, the others refused
+            steps.append({"do": "sleep", "ms": int(D * rng.choice([0.4, 0.6, 0.8]))})
+        steps.append({"do": "sleep", "ms": int(D * 2.5) + 60})
+        if k % 2:
+            steps.append({"do": "offered_deadline_status", "w": 0})
+        steps.append({"do": "final"})
+        out.append({"name": f"C30-refused-{k}", "family": "refused", "seed": seed * 61 + k, "frag": 1344, "steps": steps})
     return out
 
 
